@@ -613,6 +613,10 @@ def compare(case, io_, mo, mode):
             return f"kernel call trace differs: impl={io_['calls']} model={m['calls']}"
         if "flags" in io_ and "flags" in m and io_["flags"] != m["flags"]:
             return f"full-flag trace of the kernel calls differs (regrowth path): impl={io_['flags']} model={m['flags']}"
+        bound = call_bound(case)
+        if bound is not None and "flags" in io_ and len(io_["flags"]) > bound:
+            return (f"{len(io_['flags'])} kernel calls on the implementation exceed the bound records + 2 + regrowthBound = {bound} "
+                    f"of window_chunking_unobservable")
         return None
     if op == "csv_import":
         if io_["rows"] != m["rows"]:
@@ -723,6 +727,28 @@ def classify(case, mo):
     if case["op"] != "csv_kernel" and Q in case["file"]:
         tags.append("quoted")
     return tags
+
+
+def need(b, t):
+    """Lemmas/CsvLines.lean `need`: number of doublings after which b exceeds t"""
+    n = 0
+    while 0 < b <= t:
+        b, n = 2 * b, n + 1
+    return n
+
+
+def call_bound(case):
+    """the call bound of Props.C05.window_chunking_unobservable (records + 2 + regrowthBound) for a driver case inside the
+    theorem's hypotheses (well-formed rectangular file, supported regime, budgets >= 1); None outside them"""
+    data, ncols, offs = bytes(case["file"]), case["ncols"], case["offs"]
+    ref = parse_ref(data)
+    if not data or ref is None or not ref or any(len(r) != ncols for r in ref) or not supported(data, case["crs"], ncols):
+        return None
+    if any(offs[c + 1] - offs[c] < 1 for c in range(ncols)):
+        return None
+    recs = ref[1:]
+    return (len(recs) + 2 + need(2 * case["crs"], len(recs))
+            + sum(need(offs[c + 1] - offs[c], sum(len(r[c]) for r in recs)) for c in range(ncols)))
 
 
 def regrowth_tags(flags, calls):
